@@ -60,6 +60,8 @@ def decorate(case, k, rng, cfg=None):
               "sub": 1 if case["n"] == 4 and rng.random() < 0.3 else 0, "sp0": rng.randrange(2)})
     # ROOT layout: the modules sit at the very root of the resource tree (no parent directory), the entry in src/
     c["root"] = 1 if c["sub"] == 0 and rng.random() < 0.25 else 0
+    # CASE TWINS: files 2 and 3 are named a.<ext> and A.<ext> (paths that differ by letter case only are different files)
+    c["casetwin"] = 1 if case["n"] >= 3 and rng.random() < 0.2 else 0
     return c
 
 
